@@ -14,6 +14,7 @@ from ..dataflow import flow_of
 from ..program import AnalysisError, FunctionInfo, dotted, norm, own_nodes
 from ..report import RuleResult
 from . import conds
+from ..shape import facts_at, inline_locals, ntext, family
 
 UNFOLD = "spil.sid.read.tools.unfold_search"
 
@@ -55,15 +56,14 @@ def rule_pipe(ctx: Ctx) -> RuleResult:
         calls = [n for n in ast.walk(lp) if isinstance(n, ast.Call) and isinstance(n.func, ast.Name) and n.func.id == norm(lp.target)]
         if len(calls) == 1 and len(calls[0].args) == 1 and isinstance(calls[0].args[0], ast.Name):
             acc = calls[0].args[0].id
-            # the result of each unfolder feeds the next
-            feeds = any(d.var == acc and d.value is not None and (d.value is calls[0] or (
-                isinstance(d.value, ast.Name) and any(d2.var == d.value.id and d2.value is calls[0] for d2 in flow.all_defs)))
-                        for d in flow.all_defs)
+            # the result of each unfolder feeds the next: some definition of the accumulator inside the loop derives from the call
+            feeds = any(d.var == acc and d.value is not None and any(a.node is calls[0] for a in flow.depends(d.value, d.node) if a.kind == "call")
+                        for d in flow.all_defs if d.node >= 0)
             init = [d for d in flow.all_defs if d.var == acc and isinstance(d.value, ast.List) and len(d.value.elts) == 1
                     and norm(d.value.elts[0]) == au.params[0]]
             good = feeds and bool(init)
     rets = _rets(au)
-    dedup = any(isinstance(r.value, ast.Call) and norm(r.value).startswith("sorted(set(") for r in rets)
+    dedup = any(r.value is not None and ntext(au, r.value, r).startswith("sorted(set(") for r in rets)
     if good and dedup:
         res.ok("apply_unfolders", "starts from [sid], feeds every unfolder's output to the next in list order, returns sorted(set(...))")
     else:
@@ -72,8 +72,10 @@ def rule_pipe(ctx: Ctx) -> RuleResult:
     us = p.function(UNFOLD)
     calls = [n for n in own_nodes(us.node) if isinstance(n, ast.Call) and dotted(n.func) == "apply_unfolders"]
     ok = False
-    if len(calls) == 1 and len(calls[0].args) == 2:
-        a0, a1 = calls[0].args
+    if len(calls) == 1 and len(calls[0].args) + len(calls[0].keywords) == 2:
+        argv = list(calls[0].args) + [k.value for k in calls[0].keywords]
+        a0 = inline_locals(us, argv[0], calls[0])
+        a1 = inline_locals(us, argv[1], calls[0])
         ok = norm(a0) == f"str({us.params[0]})" and isinstance(a1, ast.BinOp) and norm(a1.left) == "list_search_unfolders" \
             and isinstance(a1.right, ast.IfExp) and norm(a1.right.test) == "do_extrapolate" and norm(a1.right.body) == "[extrapolate]" \
             and norm(a1.right.orelse) == "[]"
@@ -108,14 +110,12 @@ def rule_filter(ctx: Ctx) -> RuleResult:
         lp, removes = removal
         var = norm(lp.target)
         lst = norm(removes[0].func.value)
-        tests = []
+        facts = set()
         for rm in removes:
-            for t, lab in ctx.ef._dominating_tests(cfg, rm):
-                if lab == "true":
-                    tests.append(norm(t))
-        if not any(t == f"not {var}" for t in tests):
+            facts |= facts_at(ctx, us, rm)
+        if (var, False) not in facts:
             problems.append("untyped Sids are not removed")
-        if not any(f"{var}.string.count('?')" in t or f"'?' in {var}.string" in t or f"'?' in str({var})" in t for t in tests):
+        if not ({(f"'?' in {var}.string", True), (f"'?' in str({var})", True)} & facts):
             problems.append("Sids with an unapplied query are not removed")
         for r in rets:
             if norm(r.value) != lst:
@@ -620,8 +620,12 @@ def rule_assid(ctx: Ctx) -> RuleResult:
     n = 0
     classes = [c for c in ctx.p.classes.values() if c.module.kind == "library" and c.module.name != "spil.sid.read.finders.find_cache"
                and any(k.qualname == "spil.sid.read.finder.Finder" for k in ctx.p.mro(c))]
-    for c in classes:
-        for m in c.methods.values():
+    methods = [m for c in classes for m in c.methods.values()]
+    # module-level helpers of the finder modules with an as_sid parameter (e.g. `_as_result(sid, as_sid)`)
+    for mod in {c.module.name: c.module for c in classes}.values():
+        methods += [g for g in mod.functions.values() if g.cls is None and g.parent is None and "as_sid" in g.params]
+    for _ in [0]:
+        for m in methods:
             for st in own_nodes(m.node):
                 if not (isinstance(st, ast.If) and norm(st.test) == "as_sid"):
                     continue
@@ -649,7 +653,7 @@ def rule_assid(ctx: Ctx) -> RuleResult:
                 else:
                     res.violation([m.qualname, "as_sid branches", norm(st)[:60]], f"{m.short}: the as_sid=True and as_sid=False branches do not "
                                                                                   f"produce the same entry as Sid and as string", m.relpath, st.lineno, site=site)
-    res.floor(n, 8, "`if as_sid:` branch pairs")
+    res.floor(n, 3, "`if as_sid:` branch pairs")
     return res
 
 
@@ -866,6 +870,29 @@ def _cond_glob(ctx: Ctx):
 
 
 # ------------------------------------------------------------------------------------------------ C09
+def _key_function_body(f: FunctionInfo, key: ast.AST):
+    """(argument name, body expression) of a sort / group key given as a lambda or as a local function"""
+    if isinstance(key, ast.Lambda) and len(key.args.args) == 1:
+        return key.args.args[0].arg, key.body
+    if isinstance(key, ast.Name) and key.id in f.nested:
+        g = f.nested[key.id]
+        rets = [n for n in own_nodes(g.node) if isinstance(n, ast.Return) and n.value is not None]
+        if len(rets) == 1 and len(g.params) == 1:
+            return g.params[0], rets[0].value
+    return None, None
+
+
+def _is_full_split(f: FunctionInfo, arg: str, e: ast.AST) -> bool:
+    """e is  arg.split('/')  (possibly wrapped in tuple()/list(), or a call of a local function doing that)"""
+    if isinstance(e, ast.Call) and isinstance(e.func, ast.Name) and e.func.id in ("tuple", "list") and len(e.args) == 1:
+        e = e.args[0]
+    if isinstance(e, ast.Call) and isinstance(e.func, ast.Name) and e.func.id in f.nested and len(e.args) == 1 and norm(e.args[0]) == arg:
+        a2, b2 = _key_function_body(f, e.func)
+        return a2 is not None and _is_full_split(f, a2, b2)
+    return isinstance(e, ast.Call) and isinstance(e.func, ast.Attribute) and e.func.attr == "split" and norm(e.func.value) == arg \
+        and len(e.args) == 1 and not e.keywords and norm(e.args[0]) in ("'/'", "conf.sip", "sip")
+
+
 def rule_sort(ctx: Ctx) -> RuleResult:
     res = RuleResult("R-SORT")
     f = ctx.p.function("spil.sid.read.finders.find_glob.FindByGlob.sorted_search")
@@ -879,15 +906,8 @@ def rule_sort(ctx: Ctx) -> RuleResult:
     s, g = sorts[0], groups[0]
     kw = {k.arg: k.value for k in s.keywords}
     key = kw.get("key")
-    okkey = False
-    if isinstance(key, ast.Lambda) and len(key.args.args) == 1:
-        a = key.args.args[0].arg
-        b = key.body
-        if isinstance(b, ast.Call) and isinstance(b.func, ast.Name) and b.func.id in ("tuple", "list") and len(b.args) == 1:
-            b = b.args[0]
-        okkey = isinstance(b, ast.Call) and isinstance(b.func, ast.Attribute) and b.func.attr == "split" and norm(b.func.value) == a \
-            and len(b.args) == 1 and not b.keywords and norm(b.args[0]) in ("'/'", "conf.sip", "sip")
-    if okkey:
+    a, b = _key_function_body(f, key) if key is not None else (None, None)
+    if a is not None and _is_full_split(f, a, b):
         res.ok("sorted_search sort key", "entries are compared segment by segment (key = x.split('/'))")
     else:
         res.violation([f.qualname, "sort key", norm(key) if key is not None else "none"],
@@ -895,37 +915,59 @@ def rule_sort(ctx: Ctx) -> RuleResult:
                       f"segments: with names containing characters below '/' ('-', '.', '+') '>' picks the wrong entry", f.relpath, s.lineno)
     rev = kw.get("reverse")
     descending = isinstance(rev, ast.Constant) and rev.value is True
-    # the group key is the prefix before the '>' position of the same segmentation
     gk = next((k.value for k in g.keywords if k.arg == "key"), g.args[1] if len(g.args) > 1 else None)
+    ga, gb = _key_function_body(f, gk) if gk is not None else (None, None)
     okg = False
-    if isinstance(gk, ast.Lambda):
-        b = gk.body
-        okg = isinstance(b, ast.Subscript) and isinstance(b.slice, ast.Slice) and norm(b.slice.upper) == "index" \
-            and (b.slice.lower is None or norm(b.slice.lower) == "0") and isinstance(b.value, ast.Call) and norm(b.value).endswith(".split('/')")
+    if ga is not None and isinstance(gb, ast.Subscript) and isinstance(gb.slice, ast.Slice):
+        sl = gb.slice
+        okg = sl.upper is not None and norm(sl.upper) == "index" and (sl.lower is None or norm(sl.lower) == "0") and sl.step is None \
+            and _is_full_split(f, ga, gb.value)
     if okg:
-        res.ok("sorted_search group key", "x.split('/')[0:index]: the segments before the '>' position")
+        res.ok("sorted_search group key", "x.split('/')[:index]: the segments before the '>' position")
     else:
         res.violation([f.qualname, "group key"], "sorted_search does not group by the segments before the '>' position", f.relpath, g.lineno)
-    picks = [n for n in own_nodes(f.node) if isinstance(n, ast.Subscript) and norm(n.value) == "result"]
-    idx = {norm(p.slice) for p in picks}
-    if (descending and idx == {"0"}) or (not descending and idx == {"-1"}):
+    # which element of each group is taken
+    loop = next((n for n in own_nodes(f.node) if isinstance(n, ast.For) and any(x is g for x in ast.walk(n.iter))), None)
+    pick = None
+    if loop is not None and isinstance(loop.target, ast.Tuple) and len(loop.target.elts) == 2:
+        grp = norm(loop.target.elts[1])
+        ys = [y for y in ast.walk(loop) if isinstance(y, ast.Yield) and y.value is not None]
+        picks = set()
+        for y in ys:
+            v = y.value
+            if isinstance(v, ast.Call) and dotted(v.func) == "Sid" and len(v.args) == 1:
+                v = v.args[0]
+            t = norm(inline_locals(f, v, y))
+            if t in (f"list({grp})[0]", f"next({grp})", f"next(iter({grp}))"):
+                picks.add("first")
+            elif t in (f"list({grp})[-1]",):
+                picks.add("last")
+            else:
+                picks.add(t)
+        if len(picks) == 1:
+            pick = picks.pop()
+    if (descending and pick == "first") or (not descending and pick == "last"):
         res.ok("sorted_search direction", f"{'descending sort, first' if descending else 'ascending sort, last'} element of each group")
     else:
-        res.violation([f.qualname, "direction"], f"sorted_search sorts {'descending' if descending else 'ascending'} and picks {sorted(idx)}: not the "
-                                                 f"greatest entry of the group", f.relpath, s.lineno)
-    # one result per group, index from the '>' position
+        res.violation([f.qualname, "direction"], f"sorted_search sorts {'descending' if descending else 'ascending'} and yields `{pick}` of each "
+                                                 f"group: not the greatest entry of the group", f.relpath, s.lineno)
     ix = [d for d in flow.all_defs if d.var == "index" and d.value is not None]
-    if ix and norm(ix[0].value) == "str(search_sids[0]).split('/').index('>')":
+    if ix and norm(ix[0].value) in ("str(search_sids[0]).split('/').index('>')", "search_sids[0].string.split('/').index('>')"):
         res.ok("sorted_search index", "position of '>' among the segments")
     else:
         res.violation([f.qualname, "index"], "sorted_search does not locate '>' among the '/'-segments", f.relpath, f.node.lineno)
-    # the star search runs over '>' read as '*', on every search
     rep = [n for n in own_nodes(f.node) if isinstance(n, ast.Call) and isinstance(n.func, ast.Attribute) and n.func.attr == "replace"
            and len(n.args) == 2 and norm(n.args[0]) == "'>'" and norm(n.args[1]) == "'*'"]
     if rep:
         res.ok("sorted_search star read", "'>' is read as '*' for the underlying search")
     else:
         res.violation([f.qualname, "star read"], "sorted_search no longer reads '>' as '*'", f.relpath, f.node.lineno)
+    # the input to the sort is the de-duplicated set of found strings
+    s_arg = s.args[0] if s.args else None
+    if s_arg is not None and "set(" in norm(s_arg):
+        res.ok("sorted_search input", "duplicates are removed before sorting")
+    else:
+        res.violation([f.qualname, "duplicates"], "sorted_search sorts without removing duplicates", f.relpath, s.lineno)
     return res
 
 
@@ -934,7 +976,9 @@ def rule_groupfinder(ctx: Ctx) -> RuleResult:
     res = RuleResult("R-GROUPFINDER")
     for q, getter, do in (("spil.sid.read.finders.find_all.FindInAll.find", "get_finder", "do_find"),
                           ("spil.sid.read.getters.getter_all.GetFromAll.get", "get_getter", "do_get")):
-        f = ctx.p.function(q)
+        from ..shape import expanded
+
+        f = expanded(ctx, ctx.p.function(q))
         flow = flow_of(f.node)
         stores = [n for n in own_nodes(f.node) if isinstance(n, ast.Assign) and isinstance(n.targets[0], ast.Subscript)
                   and isinstance(n.targets[0].value, ast.Name)]
